@@ -38,6 +38,15 @@ def gen_ir(r, fmt):
             p["default"] = ""  # the empty string is a legal default
     if r.random() < 0.3:
         ir["doc"] = r.choice(["Summary line.\n\nLonger description\nover two lines.", "  Indented summary", "Summary"])
+    # descriptions that span several lines (a line break inside a parameter's or the return's description is legal input)
+    if r.random() < 0.25:
+        ml = r.choice(["the first line\nand a second line", "values computed so far\nwith their weights\nand the rest", "short\nlonger continuation line of the description"])
+        if ir.get("returns") and r.random() < 0.6:
+            ir["returns"]["return_type"]["doc"] = ml
+            ir["returns"]["return_type"].pop("default", None)
+        else:
+            n = r.choice(list(ir["params"]))
+            ir["params"][n]["doc"] = ml
     return ir
 
 
@@ -78,6 +87,8 @@ def compare(chk, case, views):
     for k in range(len(views) - 1):
         a, b = views[k], views[k + 1]
         base = {"format": fmt, "style": style, "round": min(k + 1, 2)}
+        if any("\n" in (p.get("doc") or "") for p in list(ir["params"].values()) + list((ir.get("returns") or {}).values())):
+            base["multiline_doc"] = True  # root-cause marker: some description of the input spans several lines
         if "raises" in b:
             chk.failure({**base, "field": "raises", "exc": b["raises"]}, "%s: round %d parses, round %d raises %s" % (fmt, k + 1, k + 2, b["raises"]), rp)
             return True
